@@ -375,6 +375,28 @@ static std::vector<std::string> ascii_token_mutations(const std::string &t, bool
     return r;
 }
 
+// structure-aware negative tests: the reference encoder writes the mesh with one encoding field of one chunk kind overridden
+// and the payload consistent with the override (a single-byte substitution can never produce these: the payload size
+// check rejects it first)
+static std::vector<std::pair<std::string, std::string>> semantic_mutants(const MeshD &m) {
+    std::vector<std::pair<std::string, std::string>> r;
+    auto add = [&](const EncOpt &o, const std::string &label) { Bytes b = ref_encode(m, o); r.push_back({label, std::string(b.begin(), b.end())}); };
+    for (int entity = 1; entity <= 3; ++entity) {
+        size_t n = entity == 1 ? m.edges.size() : entity == 2 ? m.faces.size() : m.cells.size();
+        if (!n) continue;
+        for (int henc : {0, 1, 2, 3, 8, 255}) {
+            EncOpt o; o.bad_entity = entity; o.bad_henc = henc; add(o, "sem:e" + std::to_string(entity) + ":h" + std::to_string(henc));
+            if (entity > 1) { EncOpt o2 = o; o2.force_variable = true; add(o2, "sem:e" + std::to_string(entity) + ":h" + std::to_string(henc) + ":var"); }
+        }
+        for (int venc : {0, 1, 3, 255}) {
+            EncOpt o; o.bad_entity = entity; o.bad_venc = venc; add(o, "sem:e" + std::to_string(entity) + ":v" + std::to_string(venc));
+            if (entity > 1) { EncOpt o2 = o; o2.force_variable = true; add(o2, "sem:e" + std::to_string(entity) + ":v" + std::to_string(venc) + ":var"); }
+        }
+    }
+    if (!m.pos.empty()) for (int ve : {0, 3, 255}) { EncOpt o; o.bad_vertenc = ve; add(o, "sem:vert:" + std::to_string(ve)); }
+    return r;
+}
+
 // ------------------------------------------------------------------------------------------------ the three properties
 struct FileCase { std::string name; MeshD mesh; std::string bytes; bool binary; };
 
@@ -427,6 +449,7 @@ static void run_c07(Ctx &ctx, bool thorough, int part, int nparts, const std::st
                         labels.push_back("splice:" + std::to_string(fj) + ":" + std::to_string(a) + ":" + std::to_string(b));
                     }
                 }
+                for (auto &sm : semantic_mutants(fc.mesh)) { inputs.push_back(sm.second); labels.push_back(sm.first); }
                 // short byte strings appended after each chunk
                 const char sym[] = {0x00, 0x01, (char)0xff, 'E', 'O', 0x08};
                 for (auto &c : cp) for (int x = 0; x < 6; ++x) { inputs.push_back(fc.bytes.substr(0, c.end) + std::string(1, sym[x]) + fc.bytes.substr(c.end)); labels.push_back("ins1@" + std::to_string(c.end) + ":" + std::to_string(x));
@@ -509,6 +532,7 @@ static void run_c18(Ctx &ctx, bool thorough, int part, int nparts, const std::st
                 ins.push_back({without.substr(0, at) + chunk + without.substr(at), "move#" + std::to_string(a) + "to" + std::to_string(b), -1, 0});
             }
         }
+        for (auto &sm : semantic_mutants(fc.mesh)) ins.push_back({sm.second, sm.first, -1, 0});
         // stream faults: input failing from byte k (every k), output failing from byte k
         for (size_t k = 0; k < fc.bytes.size(); ++k) ins.push_back({fc.bytes, "readfail@" + std::to_string(k), (long)k, 0});
         for (size_t k = 0; k < fc.bytes.size(); ++k) ins.push_back({"", "writefail@" + std::to_string(k), (long)k, 1});
